@@ -227,6 +227,9 @@ func (c *Ctx) musxRun() map[string]*simpleVerdict {
 				m.steps = 0
 				e, out := m.Call(set, tmpl, src)
 				show := fmt.Sprintf("template %q", src)
+				if i%173 == 0 {
+					noteSample("MUS.reference/templates", show)
+				}
 				if out.kind == "panic" {
 					vr.bad = show + ": SetTemplate panics: " + out.why
 					continue
